@@ -84,11 +84,14 @@ where
     }
     let o_unsub = observer.clone();
 
-    let mut unsubscribers = self.unscribers.write().unwrap();
-    unsubscribers.insert(
+    self.unscribers.write().unwrap().insert(
       serial.clone(),
       FunctionWrapper::new(move |_| o_unsub.unsubscribe()),
     );
+    if !self.subscriber.is_subscribed() {
+      // the stream ended (finalize ran) while this upstream was being registered
+      self.upstream_abort_observe(&serial);
+    }
     observer
   }
 
@@ -141,13 +144,16 @@ where
   }
 
   pub fn finalize(&self) {
-    self.unscribers.read().unwrap().iter().for_each(|x| {
+    // End the downstream observer first (also after a terminal: this releases the
+    // subscriber's callbacks and its teardown action, which owns a clone of this
+    // controller), then take the registered upstreams out of the map in one step and
+    // unsubscribe them: an upstream registered concurrently either is in the map that is
+    // taken here or sees the ended subscriber when new_observer re-checks it.
+    self.subscriber.unsubscribe();
+    let upstreams = std::mem::take(&mut *self.unscribers.write().unwrap());
+    upstreams.iter().for_each(|x| {
       x.1.call(());
     });
-    self.unscribers.write().unwrap().clear();
-    // also after a terminal: releases the subscriber's callbacks and its teardown action
-    // (which owns a clone of this controller)
-    self.subscriber.unsubscribe();
     let on_finalize = &mut *self.on_finalize.write().unwrap();
     if let Some(f) = on_finalize {
       f.call(());
